@@ -86,6 +86,18 @@ def handle : List String → Option (Except String String)
         let (G, m, kmax) ← Tok.run (do let g ← parseGrammar pBool; let m ← parseMethod; let k ← Tok.nat; pure (g, m, k)) rest
         pure (showOutcome showBool (sumProductsN boolSR (fun _ => true) (fun a b => a && !b) (· || ·) G m kmax))
       | _ => throw "bad semiring"
+  | "P.sumProductsNTol" :: rest => some do
+      -- the Real semiring, every method (Newton included), with the stopping test of `MultiTensor.allclose(other, tol)` for tol > 0
+      -- (every cell within `tol` absolutely; equal infinities are close) in place of the exact comparison; exact rational iterates
+      let (G, m, kmax, tol) ← Tok.run (do
+        let g ← parseGrammar Tok.ext; let m ← parseMethod; let k ← Tok.nat; let t ← Tok.rat; pure (g, m, k, t)) rest
+      let close : Ext → Ext → Bool := fun a b =>
+        match a, b with
+        | Ext.fin p, Ext.fin q => decide ((if p ≤ q then q - p else p - q) ≤ tol)
+        | Ext.nan, _ => false
+        | _, Ext.nan => false
+        | a, b => a == b
+      pure (showOutcome toString (@sumProductsN Ext ⟨close⟩ realSR Impl.realStar (Impl.realSub 0) Ext.maximum G m kmax))
   | _ => none
 
 end Fggs.Nw
